@@ -301,7 +301,10 @@ impl TcpBuilder {
     /// the recorder and exporter automatically for them. If a caller is combining recorders,
     /// however, then this method allows the caller the flexibility to do so.
     pub fn build(self) -> Result<TcpRecorder, Error> {
-        let buffer_size = self.buffer_size;
+        // A zero-sized buffer cannot hold the message being handed over: the channel would be a
+        // rendezvous channel that `try_send` can never use, and the transport would spin on its own
+        // wake-ups without draining anything.
+        let buffer_size = self.buffer_size.map(|size| size.max(1));
         let (tx, rx) = match buffer_size {
             None => unbounded(),
             Some(size) => bounded(size),
